@@ -9,30 +9,48 @@
 (* Shared = TRUE: one table for the whole process (what a class-level      *)
 (* mutable default gives).  TLC explores every interleaving of Negotiate,  *)
 (* Request and Abort of N associations.                                    *)
+(* The entity's server life-cycle is part of the model: `serving` is "yes" *)
+(* while serve_forever accepts connections, "closing" from the moment       *)
+(* AE.quit() has stopped the accept loop (shutdown + closing the listening *)
+(* socket) and "closed" when quit() has returned.  The entity sets         *)
+(* daemon_threads = True, so ThreadingMixIn.server_close() does NOT join    *)
+(* the handler threads (observed: quit() returns seconds before the last   *)
+(* association in flight ends): QuitEnd has no guard, and associations in   *)
+(* flight keep being served while closing AND after quit() has returned.   *)
 (***************************************************************************)
 EXTENDS Naturals, FiniteSets, TLC
 CONSTANTS N, Shared, Tables      \* Tables: the set of tables an association may negotiate ([ctx id -> value or "-"])
 Assocs == 1..N
-VARIABLES own, table, state, served, mids
-vars == <<own, table, state, served, mids>>
+VARIABLES own, table, state, served, mids, serving
+vars == <<own, table, state, served, mids, serving>>
 T(i) == IF Shared THEN table[1] ELSE table[i]
 Init == /\ own = [i \in Assocs |-> "none"] /\ table = [i \in Assocs |-> "none"]
-        /\ state = [i \in Assocs |-> "new"] /\ served = {} /\ mids = [i \in Assocs |-> 0]
+        /\ state = [i \in Assocs |-> "new"] /\ served = {} /\ mids = [i \in Assocs |-> 0] /\ serving = "yes"
 Negotiate(i, t) ==
+  /\ serving = "yes"      \* connections are accepted only while the accept loop runs
   /\ state[i] = "new" /\ own' = [own EXCEPT ![i] = t]
   /\ table' = IF Shared THEN [table EXCEPT ![1] = t] ELSE [table EXCEPT ![i] = t]
-  /\ state' = [state EXCEPT ![i] = "up"] /\ UNCHANGED <<served, mids>>
+  /\ state' = [state EXCEPT ![i] = "up"] /\ UNCHANGED <<served, mids, serving>>
 Request(i, c) ==      \* a request on context c of association i is dispatched through the table in force
   /\ state[i] = "up" /\ c \in DOMAIN own[i]
   /\ mids' = [mids EXCEPT ![i] = @ + 1]
   /\ served' = served \cup {[assoc |-> i, ctx |-> c, used |-> T(i)[c], negotiated |-> own[i][c], mid |-> mids'[i]]}
-  /\ UNCHANGED <<own, table, state>>
-Abort(i) == state[i] = "up" /\ state' = [state EXCEPT ![i] = "gone"] /\ UNCHANGED <<own, table, served, mids>>
-Next == \E i \in Assocs : (\E t \in Tables : Negotiate(i, t)) \/ (\E c \in 1..2 : Request(i, c)) \/ Abort(i)
+  /\ UNCHANGED <<own, table, state, serving>>
+Abort(i) == state[i] = "up" /\ state' = [state EXCEPT ![i] = "gone"] /\ UNCHANGED <<own, table, served, mids, serving>>
+QuitBegin == serving = "yes" /\ serving' = "closing" /\ UNCHANGED <<own, table, state, served, mids>>
+QuitEnd == serving = "closing" /\ serving' = "closed" /\ UNCHANGED <<own, table, state, served, mids>>   \* daemon handler threads: nothing is joined
+Next == \/ \E i \in Assocs : (\E t \in Tables : Negotiate(i, t)) \/ (\E c \in 1..2 : Request(i, c)) \/ Abort(i)
+        \/ QuitBegin \/ QuitEnd
 Spec == Init /\ [][Next]_vars
 (* every request is served with the parameters its own association negotiated *)
 OwnAssociationOwnData == \A r \in served : r.used = r.negotiated
 (* the end of one association leaves every other one unchanged *)
 AbortIsLocal == [][\A i \in Assocs : (state[i] = "up" /\ state'[i] = "gone") =>
                      \A j \in Assocs \ {i} : own'[j] = own[j] /\ state'[j] = state[j] /\ (~Shared => table'[j] = table[j])]_vars
+(* stopping the server concerns the listener only: no association in flight is touched by it *)
+QuitIsLocal == [][serving' # serving => UNCHANGED <<own, table, state, served, mids>>]_vars
+(* no association is established once quit has begun *)
+NoNewAssociationAfterQuit == [][\A i \in Assocs : (state[i] = "new" /\ state'[i] = "up") => serving = "yes"]_vars
+(* non-vacuity (expected to be VIOLATED): some request is served while the server is closing or closed *)
+NoRequestWhileClosing == [][serving # "yes" => served' = served]_vars
 =============================================================================
